@@ -136,6 +136,8 @@ static void run_detector(Json& js, vh::Rng& rng, long budget, bool all_offsets) 
             int Lp = (int)rng.range(64, 512);
             h = zadoff_chu(1, Lp);
         }
+        // the reference handed to the detector may have any scale: the metric normalises by the reference's own energy
+        const arr_cmplx href = h * std::pow(10.0, -1.5 + 3 * rng.unif());
         const int Lp = h.size();
         // Domain in which the statement is satisfiable for a detector normalised by the running power: in pure noise
         // the metric exceeds thr with probability exp(-thr^2 Lp) per sample, and partial overlaps of the preamble reach
@@ -144,7 +146,7 @@ static void run_detector(Json& js, vh::Rng& rng, long budget, bool all_offsets) 
         const double thr = tmin + (0.9 - tmin) * rng.unif();
         const double amp = std::pow(10.0, -3.5 + 5 * rng.unif());   // amplitudes over 100 dB (3e-4 .. 30): score and decision are level-free
         const double nlev = amp * std::pow(10.0, -(20 + 20 * rng.unif()) / 20.0);   // background noise 20..40 dB below the preamble
-        PreambleDetector probe(h, thr);
+        PreambleDetector probe(href, thr);
         const int F = probe.frame_len();
         std::vector<int> positions;   // stream index of the first preamble sample
         if (all_offsets) {
@@ -175,7 +177,7 @@ static void run_detector(Json& js, vh::Rng& rng, long budget, bool all_offsets) 
                     in[pos + i] = in[pos + i] + h[i] * amp;
                 }
             }
-            PreambleDetector det(h, thr);
+            PreambleDetector det(href, thr);
             long det_frame = -1, det_off = -1, match = -2, plen = 0, nthrow = 0;
             double score = 0;
             for (int f = 0; f < nframes; ++f) {
@@ -209,7 +211,7 @@ static void run_detector(Json& js, vh::Rng& rng, long budget, bool all_offsets) 
         }
         // frames that are not a multiple of frame_len are rejected
         {
-            PreambleDetector det(h, thr);
+            PreambleDetector det(href, thr);
             const char* o = vh::outcome([&] { det.process(arr_cmplx(F + 1 + (int)rng.range(0, F - 2))); });
             js.begin("DetFrame").num("Lp", Lp).num("F", F).str("o", o).end();
         }
